@@ -74,6 +74,8 @@ impl Property for C06 {
         let mut rep = RunReport::default();
         // every sixth run drives the repository's own cluster simulator (simulator::multi_node) instead of real nodes
         if src.below(6) == 0 { return run_repo_simulator(src, ctx); }
+        // one run in 25: the network tier - nodes wired as the persistent server wires them, on the simulated network (c06_net.rs)
+        if src.chance(1, 25) { super::c06_net::run(src, ctx, &mut rep); rep.evals = rep.evals.max(1); return rep; }
         let n = 2 + src.below(3) as usize;
         let level = if src.chance(1, 3) { ConsistencyLevel::Causal } else { ConsistencyLevel::Eventual };
         let hashes = src.chance(2, 3);
